@@ -4,7 +4,7 @@
    Not modelled (exercised exhaustively over cut positions by the check): expat, the raw-appended fallback parser,
    np.genfromtxt on damaged input. *)
 From Coq Require Import QArith Arith Bool List.
-From FC Require Import Model.Scalar Model.Predicates Model.Compare Model.Cli Model.CliFile Proofs.CompareP Proofs.CliP.
+From FC Require Import Model.Scalar Model.Predicates Model.Compare Model.Cli Model.CliFile Model.Codec Proofs.CompareP Proofs.CliP Proofs.CodecP.
 Import ListNotations.
 Local Open Scope nat_scope.
 
@@ -43,6 +43,16 @@ Proof.
   destruct (proj1 V eq_refl) as [_ [X|X]]; congruence.
 Qed.
 Print Assumptions C18_lost_step_nonzero.
+
+(* codec layer: for EVERY proper prefix of an encoded (uncompressed) data-array payload — raw or base64, both header
+   placements, all header types and byte orders — the reader model returns nothing or fewer bytes than declared, never
+   the full array: the length assertions of the reader then reject the file *)
+Theorem C18_truncated_payload_rejected : forall (compress : bytes -> bytes) bo h e hsep x p,
+  wf x -> (lenN x < hbound h)%N ->
+  proper_prefix p (enc_array compress bo h None e hsep x) ->
+  truncated_ok x (read_uncompressed bo h e p).
+Proof. exact truncated_payload_rejected. Qed.
+Print Assumptions C18_truncated_payload_rejected.
 
 Example C18_nonvacuous :
   let col n v := (n, n, {| kind := KF64; shape := [2]; data := [SF 1; SF v] |}) in
